@@ -34,6 +34,8 @@ SELECTORS = ('subset', 'subsample', 'subset_pattern', 'subsample_pattern')
 
 
 def run(ctx, obs):
+    from .c10 import keep_index
+    keep_index(ctx, obs)
     loo_boundary(ctx, obs, 'inference.crossvalsets.sets_leave_one_out_rdm')
     for _q in ('sets_k_fold', 'sets_k_fold_rdm', 'sets_k_fold_pattern'):
         kfold_partition(ctx, obs, 'inference.crossvalsets.' + _q)
